@@ -504,6 +504,20 @@ func (g *genState) gadget(q Tuple) ([]Tuple, *Tuple) {
 			continue
 		}
 		seen[l] = true
+		// a relation that some traverse walks over only points into namespaces
+		// that declare the computed relation (the store stays well-formed)
+		if tns, ok := g.travRe[q.NS][l]; ok {
+			allowed := false
+			for _, n := range tns {
+				if n == G.NS {
+					allowed = true
+				}
+			}
+			if !allowed {
+				t.Choose(4) // keep the tape layout
+				continue
+			}
+		}
 		if t.Bool(3, 4) {
 			out = append(out, Tuple{NS: q.NS, Obj: q.Obj, Rel: l, Sub: Subject{Set: G}})
 		}
